@@ -17,6 +17,7 @@ import (
 	"runtime/debug"
 	"strconv"
 	"strings"
+	"sync"
 	"syscall"
 	"time"
 
@@ -339,6 +340,10 @@ func child(args []string) {
 		childFirstKey(args[1], args[2])
 		return
 	}
+	if args[0] == "coldconcurrent" {
+		childColdConcurrent(args[1])
+		return
+	}
 	up := args[0] == "true"
 	cid, _ := strconv.Atoi(args[1])
 	size, _ := strconv.Atoi(args[2])
@@ -387,6 +392,69 @@ func childFirstKey(entry, keyName string) {
 		_, err := lorawan.EncryptFRMPayload(key, true, lorawan.DevAddr{1, 2, 3, 4}, 1, []byte{1, 2, 3})
 		fmt.Printf("err=%v\n", err != nil)
 	}
+}
+
+// childColdConcurrent: the very first decodes of a process happen concurrently (a server starting under load): many
+// goroutines released together decode mac-command streams carrying every CID, both directions, nothing decoded before.
+// A decoder that fills a lookup table lazily without a lock dies here (fatal error: concurrent map writes).
+func childColdConcurrent(which string) {
+	var wg sync.WaitGroup
+	start := make(chan struct{})
+	for g := 0; g < 64; g++ {
+		g := g
+		wg.Add(1)
+		go func() {
+			defer wg.Done()
+			<-start
+			for _, up := range []bool{g%2 == 0, g%2 != 0} {
+				var stream []byte
+				for c := 0; c < 256; c++ {
+					stream = append(stream, byte((c+g*37)%256))
+				}
+				port := uint8(0)
+				phy := lorawan.PHYPayload{MHDR: lorawan.MHDR{MType: mtype(up)},
+					MACPayload: &lorawan.MACPayload{FPort: &port, FRMPayload: []lorawan.Payload{&lorawan.DataPayload{Bytes: stream}}}}
+				_ = phy.DecodeFRMPayloadToMACCommands()
+				var mc lorawan.MACCommand
+				_ = mc.UnmarshalBinary(up, []byte{byte(g), 0, 0, 0, 0, 0})
+			}
+		}()
+	}
+	close(start)
+	wg.Wait()
+	fmt.Println("ok")
+}
+
+// coldConcurrentProbes: fresh processes whose first library calls are concurrent decodes.
+func coldConcurrentProbes(s *cases.Set, n int) {
+	for i := 0; i < n; i++ {
+		cmd := exec.Command(os.Args[0], "--child", "coldconcurrent", "all")
+		var out bytes.Buffer
+		cmd.Stdout, cmd.Stderr = &out, &out
+		_ = cmd.Start()
+		done := make(chan error, 1)
+		go func() { done <- cmd.Wait() }()
+		var what string
+		select {
+		case err := <-done:
+			if err != nil {
+				o := strings.TrimSpace(out.String())
+				if len(o) > 300 {
+					o = o[:300]
+				}
+				what = "the process dies: " + o
+			}
+		case <-time.After(20 * time.Second):
+			_ = cmd.Process.Kill()
+			what = "does not return (killed after 20 s)"
+		}
+		if what != "" {
+			s.Fail(cases.GoFail{Key: "cold-concurrent-decode", What: "64 goroutines decoding mac-command streams as the first library calls of a process: " + what,
+				Replay: map[string]interface{}{"how": "fresh process; 64 goroutines released together; DecodeFRMPayloadToMACCommands of all 256 CIDs in both directions, MACCommand.UnmarshalBinary"}})
+			break
+		}
+	}
+	s.Extra["cold_concurrent_probes"] = n
 }
 
 // firstKeyProbes runs every decrypt entry point as the first cipher use of a fresh process.
@@ -438,6 +506,7 @@ func main() {
 	s.Watchdog(3 * time.Second)
 	nr = cq.NewRNG(seed ^ 0x9e3779b97f4a7c15)
 	firstKeyProbes(s)
+	coldConcurrentProbes(s, 6)
 	n := 120
 	if thorough {
 		n = 4000
